@@ -39,6 +39,7 @@ pub struct Sys<M: RawMutex + 'static> {
     /// value written by the latest holder
     stamp: u32,
     symmetry: bool,
+    unwind: bool,
     try_guards: usize,
 }
 
@@ -135,6 +136,7 @@ impl<M: RawMutex + 'static> System for Sys<M> {
             seq: 0,
             stamp: 0,
             symmetry: cfg.get_or("symmetry", 1) != 0,
+            unwind: cfg.flag("unwind"),
             try_guards: 0,
         }
     }
@@ -272,7 +274,10 @@ impl<M: RawMutex + 'static> System for Sys<M> {
             }
             Op::Unlock(i) => {
                 let g = self.guards.remove(i as usize);
-                if let Err(p) = lib(|| drop(g)) {
+                // `unwind` configurations: the holder of the guard panics, the guard is dropped by
+                // the unwinder - an unlock like any other
+                let r = if self.unwind { harness::drop_unwinding(g) } else { lib(|| drop(g)) };
+                if let Err(p) = r {
                     out.v("C01", "panic", format!("dropping the guard panicked: {}", p));
                 }
             }
